@@ -122,6 +122,23 @@ Start(i) ==
   /\ Changed
   /\ UNCHANGED <<amLeader, lease, told>>
 
+\* a pod that died is started again under the same name (a new process: nothing of the old one's state; its cluster join time is
+\* the new start) - once the others have noticed the death (the property separates the events by quiet periods)
+Noticed(i) == \A j \in Up : i \notin services[j] /\ leaderOf[j] # i
+Restart(i) ==
+  /\ st[i] = "dead" /\ Noticed(i) /\ events < MaxEvents /\ events' = events + 1
+  /\ st' = [st EXCEPT ![i] = "up"] /\ order' = Append(Without(order, i), i)
+  /\ LET u == (now + 1) % P
+         a0 == [j \in Inst |-> IF Alive(j) /\ age[j] < P + D THEN age[j] + 1 ELSE age[j]]
+         r == RunTicks([leaderOf |-> [leaderOf EXCEPT ![i] = 0], services |-> [services EXCEPT ![i] = {}]],
+                       [info EXCEPT ![i] = <<0, 0>>], <<>>, Up, u, a0)
+     IN  /\ now' = u /\ ph' = [ph EXCEPT ![i] = u] /\ age' = [a0 EXCEPT ![i] = 0]
+         /\ leaderOf' = r[1].leaderOf /\ services' = r[1].services /\ info' = r[2]
+         /\ emitv' = <<[ev |-> "Joined", i |-> i]>> \o r[3]
+  /\ amLeader' = [amLeader EXCEPT ![i] = FALSE] /\ told' = [told EXCEPT ![i] = 0]
+  /\ Changed
+  /\ UNCHANGED lease
+
 \* an instance dies silently: from now on no call reaches it and none of its calls reaches anybody
 Die(i) ==
   /\ st[i] = "up" /\ events < MaxEvents /\ events' = events + 1
@@ -159,11 +176,12 @@ Step(l) ==
   CASE l.a = "Tock"           -> Tock
     [] l.a = "Start"          -> Start(l.i)
     [] l.a = "Die"            -> Die(l.i)
+    [] l.a = "Restart"        -> Restart(l.i)
     [] l.a = "Acquire"        -> Acquire(l.i)
     [] l.a = "BecomeLeader"   -> BecomeLeader(l.i)
     [] l.a = "BecomeFollower" -> BecomeFollower(l.i)
     [] l.a = "Stable"         -> Stable
-Labels == [a : {"Start", "Die", "Acquire", "BecomeLeader", "BecomeFollower"}, i : Inst] \cup [a : {"Tock", "Stable"}]
+Labels == [a : {"Start", "Die", "Restart", "Acquire", "BecomeLeader", "BecomeFollower"}, i : Inst] \cup [a : {"Tock", "Stable"}]
 
 Post == [up |-> TRUE, info |-> [i \in Inst |-> info[i]], leaderOf |-> [i \in Inst |-> leaderOf[i]],
          services |-> [i \in Inst |-> SortJ(services[i])], amLeader |-> [i \in Inst |-> amLeader[i]]]
@@ -173,6 +191,8 @@ NewMarks(l) ==
   (IF l.a = "Die" /\ lease = i THEN {"leaderDied"} ELSE {})
   \cup (IF l.a = "Die" /\ lease # 0 /\ lease # i /\ i \in services[lease] THEN {"followerDied"} ELSE {})
   \cup (IF l.a = "Start" /\ lease # 0 /\ Cardinality(Up) >= 2 THEN {"lateJoiner"} ELSE {})
+  \cup (IF l.a = "Restart" /\ lease # 0 /\ lease # i THEN {"followerRestarted"} ELSE {})
+  \cup (IF l.a = "Stable" /\ Cardinality(Up) >= 2 /\ "followerRestarted" \in marks THEN {"stableAfterFollowerRestarted"} ELSE {})
   \cup (IF l.a = "Stable" /\ Cardinality(Up) >= 3 THEN {"stableThree"} ELSE {})
   \cup (IF l.a = "Stable" /\ Cardinality(Up) >= 3 /\ lease # order[1] THEN {"stableThreeLeaderNotFirst"} ELSE {})
   \cup (IF l.a = "Stable" /\ Cardinality(Up) >= 2 /\ "leaderDied" \in marks THEN {"stableAfterLeaderDied"} ELSE {})
